@@ -27,8 +27,12 @@ def gen_cases(rng, tier, corr, stats):
                 for n in (0, 1, 31, 32, 33, 64, 65, 100):
                     if tier == "quick" and rng.random() < 0.4:
                         continue
-                    pw, salt = rnd_bytes(rng, rng.choice([0, 1, 8, 40, 70])), rnd_bytes(rng, rng.choice([0, 8, 16, 33]))
+                    pw, salt = rnd_bytes(rng, rng.choice([0, 1, 8, 40, 63, 64, 65, 70])), rnd_bytes(rng, rng.choice([0, 8, 16, 33, 64]))
                     corr.one("PB %s %s %s %d %d" % (kind, hx(pw), hx(salt), c, n)); stats["ops"]["PBKDF2-" + kind] += 1; stats["outlen"].append(n)
+        for L in (63, 64, 65, 128):
+            corr.one("PB hmac %s %s %d %d" % (hx(rnd_bytes(rng, L)), hx(rnd_bytes(rng, 8)), rng.choice([1, 2, 3]), rng.choice([16, 33])))
+            corr.one("PB hmac %s %s %d %d" % (hx(rnd_bytes(rng, 9)), hx(rnd_bytes(rng, L)), 1, 32))
+            stats["ops"]["PBKDF2-hmac-block-boundary"] += 2
         # block indices beyond one byte: the big-endian INT(i) of RFC 8018 must carry into the second byte
         for n in (8160, 8161, 8251) + ((16500, 40000) if tier == "thorough" else ()):
             pw, salt = rnd_bytes(rng, rng.choice([1, 8, 40])), rnd_bytes(rng, rng.choice([0, 8, 16]))
